@@ -61,9 +61,7 @@ theorem indexDefvar_specV (hr : RecOK r k) (h : PostV c0 c) (hn : Fits (k + 1) c
       · rename_i v hv
         refine Holds.bind (hr.valueV h (hn.sub (Ast.child_sub hv))) ?_
         intro t c2 h2
-        split
-        · exact scopesAddVariable_specV h2 hloc
-        · exact Holds.pure h2
+        exact scopesAddVariable_specV h2 hloc
       · exact Holds.pure h
     · exact Holds.pure h
   · exact Holds.pure h
@@ -108,14 +106,12 @@ theorem indexForeachIterator_specV (hr : RecOK r k) (h : PostV c0 c) (hn : Fits 
       · rename_i init hinit
         refine Holds.bind (indexForeachIteratorInit_specV hr h (hn.sub (Ast.child_sub hinit))) ?_
         intro t c2 h2
-        split
-        · refine Holds.bind (Holds.postV h2 (addVariable_step h2.inv (hloc.nodeLoc h2.toPost))) ?_
-          rintro id c3 ⟨h3, hid, _⟩
-          refine Holds.pure ⟨h3, ?_⟩
-          intro _ _ hl
-          cases hl
-          exact hid
-        · exact Holds.pure (hnone h2)
+        refine Holds.bind (Holds.postV h2 (addVariable_step h2.inv (hloc.nodeLoc h2.toPost))) ?_
+        rintro id c3 ⟨h3, hid, _⟩
+        refine Holds.pure ⟨h3, ?_⟩
+        intro _ _ hl
+        cases hl
+        exact hid
       · exact Holds.pure (hnone h)
     · exact Holds.pure (hnone h)
   · exact Holds.pure (hnone h)
@@ -1555,15 +1551,15 @@ theorem indexSimpleValue_specV (hr : RecOK r k) (h : PostV c0 c) (hn : Fits (k +
     dsimp only
     have hjp : ∀ {c2 : IndexCtx}, PostV c0 c2 → Holds (match Ast.condClauseValue cl with
         | some value => do
-          let _ ← r.value value
-          pure (ForInStep.yield PUnit.unit)
-        | x => pure (ForInStep.yield PUnit.unit) : IxM (ForInStep PUnit)) c2 (fun s c' => PostV c0 c') := by
+          let valueTyp ← r.value value
+          if b.isNone = true then pure (ForInStep.yield valueTyp) else pure (ForInStep.yield b)
+        | x => pure (ForInStep.yield b) : IxM (ForInStep (Option Ty))) c2 (fun s c' => PostV c0 c') := by
       intro c2 h2
       split
       · rename_i v hv
         refine Holds.bind (hr.valueV h2 ((hn.sub' (Ast.children_sub hcl)).sub (Ast.nthChild_sub hv))) ?_
         intro _ c3 h3
-        exact Holds.pure h3
+        split <;> exact Holds.pure h3
       · exact Holds.pure h2
     split
     · rename_i cd hcd
